@@ -222,7 +222,8 @@ class C36(core.Check):
     chunk = 50
     history_dependent = True
     crash_clause = 'C36.4'
-    hang_clause = 'C36.4'
+    hang_clause = "C36.4"
+    chunk_timeout_s = 75
     rule = ('one run = 1-3 Python controller threads, each creating, using and exiting up to 3 foreign threads '
             '(pthreads not created by Python) that invoke cffi callbacks (libffi closures, extern "Python", '
             'nested C->Python->C->Python) 1-20 times, synchronously or asynchronously, with switch points inside '
